@@ -28,9 +28,9 @@ CLAIMED = {
   design="§6 C06",
   note="Assumes lib specs for sdk.Tx / authz accessors (message objects are not mutated during the check), that sdk.ChainAnteDecorators runs the chain in order, and that each handler constructor is a function of its options. The EVM handler's decorator list and app/haqq_ante.go are not under contract."),
  "C07": dict(
-  text="Proof for all fee fields and gas values of the arithmetic the fee rules rest on: EffectiveGasPrice = min(tip + base, cap), fee = price * gas, cost = fee + value and the per-type Fee/Cost/Effective* methods of legacy, access-list and dynamic-fee data (fresh results, stored fields unchanged), GasToRefund, VerifyFee (non-error => cap >= base fee and returned coins = gas limit * effective price, intrinsic gas checked), RefundGas (exactly leftover * price from the fee collector to the sender), and the two minimum-gas-price decorators as guard contracts: next is called only when every message meets the floor.",
+  text="Proof for all fee fields and gas values of the arithmetic the fee rules rest on: EffectiveGasPrice = min(tip + base, cap), fee = price * gas, cost = fee + value and the per-type Fee/Cost/Effective* methods of legacy, access-list and dynamic-fee data (fresh results, stored fields unchanged), GasToRefund, VerifyFee (non-error => cap >= base fee and returned coins = gas limit * effective price, intrinsic gas checked), RefundGas (exactly leftover * price from the fee collector to the sender), the gas tail of ApplyMessageWithConfig (gas used and refund), and the two minimum-gas-price decorators as guard contracts: next is called only when every message meets the floor.",
   design="§6 C07",
-  note="The TxData interface is specified at interface level (refinement to the three implementations is by inspection of the verified per-type contracts); bank keeper, go-ethereum accessors and codec unpacking are assumed contracts. The gas tail of ApplyMessageWithConfig is NOT under contract (the engine cannot execute that function); only the arithmetic lemma GasUsedBound is proved - stated in not_decided."),
+  note="The TxData interface is specified at interface level (refinement to the three implementations is by inspection of the verified per-type contracts); bank keeper, go-ethereum accessors and codec unpacking are assumed contracts. The gas tail of ApplyMessageWithConfig is under contract with the interpreter call (EVM.Call/Create) as unknown code whose leftover-gas result is a free value: gasUsed == max(trunc(gasLimit x minGasMultiplier), consumed - min(consumed/quotient, refund counter)) <= gasLimit, both overflow error returns proved dead; NewEVM, statedb.New, GetRefund, Commit and the parameter getters are trusted leaves there."),
  "C12": dict(
   text="Proof over an abstract ledger view (per-holder balances, total, holder index, bank balances) that Fund credits the depositor with exactly the deposit and raises total and module balance by it, that TransferOwnership moves exactly the amount between distinct accounts, is a no-op for owner == newOwner, touches nobody else and preserves the ledger invariant (sum of shares == total == module balance, index == non-zero holders), and that the four message handlers (full / ratio / amount) compute and pass exactly the stated amounts. Loops over coin lists are proved with prefix invariants.",
   design="§6 C12",
@@ -51,6 +51,30 @@ CLAIMED = {
   text="Per module (fee market, coinomics, epochs, liquid vesting, ERC20, DAO): ExportGenesis returns the abstract module view field by field, InitGenesis establishes view == document field by field (collections through fold invariants), and the compositions export;import and import;export are identities (ghost compositions proved from the two contracts).",
   design="§6 C19",
   note="Leaf store accessors and iteration helpers are assumed contracts (key-prefix disjointness and codec round trips are assumed there); list/collection laws are explicit axioms. Known findings F3a (coinomics drops PrevBlockTs) and F3b (epochs rewrites start height) are listed. EVM state, auth vesting accounts and the app-level export are not covered."),
+ "C02": dict(
+  text="Proof of the write-back lemma the property rests on: keeper.SetBalance(addr, amount) leaves exactly amount as addr's bank balance in the EVM denomination, changes no other account and no other denomination, and moves the supply by exactly (amount - previous balance) - so the supply is unchanged by a commit exactly when the cached balances sum to the bank balances; together with the proved call-site clauses of StateDB.Commit (run under C05): every SetAccount call carries the cached record of a journal-dirty, not self-destructed object, DeleteAccount only self-destructed ones.",
+  design="§6 C02",
+  note="PARTIAL: only the keeper write-back and the Commit call sites are under contract. That EVM opcodes conserve the sum of cached balances is go-ethereum code outside /repo (assumed); that every Cosmos-side balance change made by a precompile is mirrored into the cache is NOT proved - it is violated on this tree (finding F5, DESIGN.md §7: a delegation made through a calling contract is re-minted at commit) and is recorded as a finding without a registered obligation yet. Bank keeper mint/burn/send are assumed exact contracts."),
+ "C03": dict(
+  text="Guard contracts, proved for every transaction (any number of messages): EthSigVerificationDecorator calls next only if every message is an Ethereum message whose sender, recovered with the signer built from this chain's own config and id, equals msg.From (and unprotected transactions only when allowed); EthIncrementSenderSequenceDecorator calls next only if each message's nonce equals the sender's current sequence, with the store sequence advanced by one per message (lemmas: a replay of an accepted list is refused; consecutive messages of one sender need consecutive nonces); EthValidateBasicDecorator admits no Cosmos-side signature/fee-payer/memo fields and fee/gas totals equal to the sums over the messages; the legacy EIP-712 decorator calls next only with exactly one signature whose sequence equals the account's and whose recovered key is the account's key over the typed-data hash of the sign bytes for this chain id, account number and sequence; ParseChainID is verified against its body.",
+  design="§6 C03",
+  note="Cryptography is axiomatised: ecrecover / signer.Sender / typed-data hashing are uninterpreted functions of exactly their arguments (injectivity = collision resistance is assumed, not proved). The plain Cosmos route is SDK code outside /repo (assumed). Composition of the decorators into a chain is argued in comments, not by an obligation. The link between the nonce checked by the decorator and the signed nonce goes through the C18 contracts."),
+ "C04": dict(
+  text="Proved at the point of no return of every state-changing staking, distribution and ICS-20 precompile method (the call of the module's message server / keeper): the message names the transaction signer or the immediate caller as the account acted for; when caller != signer a live grant of the right type from signer to caller exists and covers the amount (ICS-20: TransferAuthorization.Accept returned a response); nothing was written before that point; the grant update uses exactly grantee = caller, granter = signer, the authorization and expiration returned by the check, and reduces a limited grant by exactly the amount (deleting it when used up, never below zero); on every refusal the Cosmos state and the balance mirror are unchanged. CheckAuthzExists / CheckAuthzAndAllowanceForGranter are characterised exactly (iff) over an abstract grant store; increase/decreaseAllowance arithmetic is exact.",
+  design="§6 C04",
+  note="Known finding G2 (four obligations): for staking methods the grant's validator allow/deny list is consulted only after the message server ran. Not under contract: the staking/ICS-20 Approve/Revoke/IncreaseAllowance/DecreaseAllowance entry points (only their inner arithmetic), erc20 precompile approvals, read-only queries. SDK message servers, authz keeper and Accept functions are assumed contracts transcribed from the SDK source; EVM addresses are abstract identities with injective conversions."),
+ "C05": dict(
+  text="Proved for every journal and every snapshot id: each of the eleven journal entry types' Revert restores exactly the field its mutator changed and nothing else; every StateDB / stateObject mutator appends exactly one entry recording the old value and the mutated object; journal.Revert (loop with dynamic dispatch over the entry types) undoes exactly the entries above the snapshot index - length, kept prefix, log count and per-address dirty counters are exact; Snapshot ids are strictly increasing; RevertToSnapshot reverts to exactly the journal index recorded for that id and truncates the revision stack.",
+  design="§6 C05",
+  note="Covers the StateDB half of the property. The Cosmos-side effects of precompile calls are NOT journaled on this tree (finding F6, DESIGN.md §7: a delegation made in a reverted frame persists); no obligation is registered for that yet, so it is stated here rather than proved. sortedDirties / SortedKeys range over maps and are trusted; access-list slot entries are proved at frame level only; 'a failed transaction changes only fee and nonce' is go-ethereum's state transition plus the keeper's cache-context handling, covered only as far as C07's ApplyMessageWithConfig contract goes."),
+ "C10": dict(
+  text="Proved per conversion path over an exact bank model and an adversarial token model (balanceOf results are whatever the token reports): each of the four convert* functions debits one representation and credits the other by exactly the message amount in a fixed order (escrow before any EVM effect; mint / unescrow / burn only after the token-side call returned true and the re-read balance moved by exactly the amount), returns an error otherwise, and leaves the bank in one of the enumerated prefix states on failure; ConvertCoin / ConvertERC20 dispatch to the path matching the pair's owner and refuse disabled pairs; the IBC receive/ack/timeout entry points convert exactly the packet amount; monitorApprovalEvent refuses any log whose first topic is the Approval signature.",
+  design="§6 C10",
+  note="Known finding F10: PostTxProcessing mints for any Transfer(-> module) log of a registered external token without reading the escrow (unbacked mint). F10b (index of Topics[0] of a topic-less log) was found by this check and repaired. The peg as an invariant over arbitrary histories follows only by induction over the per-operation contracts; EVM execution is one uninterpreted state token; leaf store accessors are trusted."),
+ "C16": dict(
+  text="Proved for every argument list: each New*Msg decoder of the staking, distribution and ICS-20 precompiles succeeds exactly when the arity and dynamic types are right and the SDK ValidateBasic conjunction holds, and the message it builds carries exactly the decoded fields (delegator as bech32 of the address, validator strings, amounts, creation height, withdraw address re-encoded with the chain prefix, transfer fields); each transaction method then makes exactly one call of the module's own message server with that message and the wrapped context, fails when it fails, and its effect on the Cosmos state is the message server's (native_effect); event emitters cannot panic for any coin list and write no Cosmos state.",
+  design="§6 C16",
+  note="Findings G1 (creation height wrapped through Int64), G4 (panic on an empty commission) and G5 (balance mirror credited with the first coin whatever its denomination) were found by this check and repaired by fix: commits. Read-only staking queries, the bank precompile, gas metering (RunSetup/HandleGasError), TimeoutHeight decoding and the commission/pubkey fields of MsgCreateValidator are not under contract. Message servers are uninterpreted functions of (state, context, message fields): equivalence is 'same call with same arguments', not a store diff."),
 }
 
 NA_FINAL = {
@@ -68,7 +92,7 @@ m = {
  "version": 1,
  "setup_cmd": "cd /verif/engine && GOFLAGS=-mod=mod GOPROXY=off GOSUMDB=off GOTOOLCHAIN=local go build -o /verif/bin/govc ./cmd/govc",
  "hooks": {"guard": "verif",
-           "enable": "Go build tag: -tags verif. The only hook files are comment-only contract files zz_contracts_verif.go (package clause + /*@ ... @*/ comments), compiled only with the tag; replay drivers enter packages through go test -overlay and are never written to /repo.",
+           "enable": "Go build tag: -tags verif. The hook files are comment-only contract files zz_contracts_verif.go / zz_contracts_<family>_verif.go (package clause + /*@ ... @*/ comments) and, for C19, zz_roundtrip_verif.go (ghost compositions export;import written as real Go), all compiled only with the tag; replay drivers enter packages through go test -overlay and are never written to /repo.",
            "baseline_off_cmd": base["cmd"], "source_commits": hook_commits, "add_only": True},
  "engines": [{"name": "govc", "path": "/verif/engine", "serves_properties": sorted(CLAIMED),
               "kind_free_text": "contract-based deductive verifier for Go written for this task: symbolic execution of go/ssa (NaiveForm) with loop invariants, modular callee contracts, ghost functions and inductive lemmas; obligations discharged by z3 4.8.12 / z3 5.1.0 / cvc5 1.0 raced per obligation"}],
